@@ -1098,6 +1098,7 @@ func (fr *Frame) loopEntryObligations(li *loopInfo, conds []string, sts []*State
 			t, err := env.evalBool(inv.Expr)
 			if err != nil {
 				q.note(fmt.Sprintf("%s loop %d invariant %d: %v", fnKey(fr.fn), li.ordinal, i, err))
+				q.staleIf(inv, err, fmt.Sprintf("loop %d of %s", li.ordinal, fnKey(fr.fn)))
 				continue
 			}
 			o := q.addObligation(fr, "inv-init", fmt.Sprintf("loop%d:%s", li.ordinal, inv.Text), blockPos(li.header), conds[k], t)
@@ -1118,6 +1119,7 @@ func (fr *Frame) assumeLoopInvariant(li *loopInfo, reach string, st *State) {
 		t, err := env.evalBool(inv.Expr)
 		if err != nil {
 			q.note(fmt.Sprintf("%s loop %d invariant %d: %v", fnKey(fr.fn), li.ordinal, i, err))
+			q.staleIf(inv, err, fmt.Sprintf("loop %d of %s", li.ordinal, fnKey(fr.fn)))
 			continue
 		}
 		q.assume(reach, t)
@@ -1153,6 +1155,7 @@ func (fr *Frame) loopBackObligations(li *loopInfo) {
 			t, err := env.evalBool(inv.Expr)
 			if err != nil {
 				q.note(fmt.Sprintf("%s loop %d invariant %d: %v", fnKey(fr.fn), li.ordinal, i, err))
+				q.staleIf(inv, err, fmt.Sprintf("loop %d of %s", li.ordinal, fnKey(fr.fn)))
 				continue
 			}
 			o := q.addObligation(fr, "inv-pres", fmt.Sprintf("loop%d:%s", li.ordinal, inv.Text), blockPos(li.header), conds[k], t)
@@ -1415,4 +1418,17 @@ func loopFree(fn *ssa.Function) bool {
 		}
 	}
 	return true
+}
+
+
+// staleIf: a written (not inferred) clause that cannot be evaluated because it names something the code no longer has
+// (a renamed or removed local): the contract is stale, which is not the same as violated
+func (q *Query) staleIf(c Clause, err error, where string) {
+	if c.Auto || err == nil || !strings.Contains(err.Error(), "unknown name") {
+		return
+	}
+	if q.stale == nil {
+		q.stale = map[string]bool{}
+	}
+	q.stale[where+": "+c.Text+" ("+err.Error()+")"] = true
 }
